@@ -3,12 +3,14 @@ CONSTANTS
   MaxG = 12
   Dpbs = {4, 8}
   ResizeSet = {1, 2, 3, 4, 8, 10}
+  Geos <- OneGeo
   MaxSteps = 2
   DevTuneMasterOnly = FALSE
   DevFsckIgnoresFeatDiff = TRUE
   DevFlushSkipsLast = FALSE
   DevResizeKeepsOldGdt = FALSE
   DevResizeMovesSoleBackup = FALSE
+  DevSearchGuesses8xBs = FALSE
   DevBackupSearchIgnoresSs2 = FALSE
 INVARIANT TypeOK
 INVARIANT InvCurrent
